@@ -38,7 +38,7 @@ struct Shared
     std::atomic<long> paths, pruned, excluded, violations, inconclusive, truncated, crashed;
     std::atomic<long> queries, q_sat, q_unsat, q_unknown, solver_us, forks, pending, started, live, maxlive;
     std::atomic<long> obligations, discharged, obl_unknown, branch_unknown, maxdepth, nsamples, stop;
-    std::atomic<long> nlabels, nviolfiles, slowest_us, instructions, native_calls, ptr_merges, concretizations;
+    std::atomic<long> nlabels, nviolfiles, slowest_us, instructions, native_calls, ptr_merges, concretizations, race_accesses;
     Label             labels[MAXLAB];
     char              samples[MAXSMP][900];
 };
@@ -58,7 +58,7 @@ inline bool                                     is_root = true, have_slot = true
 inline bool                                     concrete_mode = false;
 inline std::map<std::string, std::string>       replay_vals;
 inline uint64_t                                 rnd_seed = 0;
-inline long                                     g_icount = 0;
+inline long                                     g_icount = 0, g_race_count = 0;
 inline std::map<std::string, int>               name_count;
 
 enum { K_DONE = 0, K_PRUNED, K_EXCLUDED, K_VIOLATION, K_INCONCLUSIVE, K_TRUNCATED, K_CRASH, K_FAULT };
@@ -286,6 +286,7 @@ inline bool fork_path()
         children.clear();
         have_slot = false;
         g_icount  = 0;
+        g_race_count = 0;
         acquire_slot();
         return true;
     }
@@ -621,6 +622,8 @@ void write_summary();
     }
     S->instructions += g_icount;
     g_icount = 0;
+    S->race_accesses += g_race_count;
+    g_race_count = 0;
     release_slot();
     wait_children();
     if (is_root)
@@ -718,6 +721,7 @@ inline void write_summary()
     kv("branch_unknown", S->branch_unknown);
     kv("instructions_interpreted", S->instructions);
     kv("native_calls", S->native_calls);
+    kv("race_accesses_checked", S->race_accesses);
     kv("symbolic_pointer_merges", S->ptr_merges);
     kv("concretizations", S->concretizations);
     kv("slowest_query_us", S->slowest_us);
